@@ -116,20 +116,80 @@ package bundle
 
 //@ func parseListOfStringLists
 //@   props C03 C10
-//@   trusted
+//@   returns (res, err)
+//@   ensures[non-empty-lists] err == nil ==> len(res) >= 1
 //@   assigns nothing
+//@   loop 0:
+//@     invariant (fresh(result) || cap(result) == 0) && len(result) == rangeindex + 1 && len(ll) >= 1
+//@   loop 1:
+//@     invariant (fresh(result) || cap(result) == 0) && (fresh(sl) || cap(sl) == 0)
 
 //@ func parseVariants
 //@   props C03 C10
 //@   assigns nothing
 
+// axesProd(a, o, k): the number of possible keys spanned by the first k axes
+// of a Variants value (each axis: header name followed by its values).
+//@ uf axesProd([1][]string, int, int) mathint
+//@ axiom axesProd_zero: forall a [1][]string, o int :: {axesProd(a, o, 0)} axesProd(a, o, 0) == 1
+//@ axiom axesProd_step: forall a [1][]string, o int, k int :: {axesProd(a, o, k + 1)} k >= 0 ==> axesProd(a, o, k + 1) == axesProd(a, o, k) * (len(a[ix(o, k)]) - 1)
+//@ axiom axesProd_step2: forall a [1][]string, o int, k int :: {axesProd(a, o, k), a[ix(o, k)]} k >= 0 ==> axesProd(a, o, k + 1) == axesProd(a, o, k) * (len(a[ix(o, k)]) - 1)
+
+// numberOfPossibleKeys: the product over all axes, refused if an axis has no
+// value or the product exceeds the limit.
 //@ func (Variants).numberOfPossibleKeys
 //@   props C03 C10
 //@   returns (n, err)
 //@   ensures err == nil ==> 1 <= n && n <= maxNumVariantsForSingleURL
+//@   ensures[is-the-product] err == nil ==> n == axesProd(arr(v), off(v), len(v)) && (forall i int :: 0 <= i && i < len(v) ==> len(v[i]) >= 2)
+//@   ensures[prefix-products-bounded] err == nil ==> forall i int :: {axesProd(arr(v), off(v), i)} 0 <= i && i <= len(v) ==> 1 <= axesProd(arr(v), off(v), i) && axesProd(arr(v), off(v), i) <= maxNumVariantsForSingleURL
 //@   assigns nothing
 //@   loop 0:
 //@     invariant 1 <= n && n <= maxNumVariantsForSingleURL
+//@     invariant[product] n == axesProd(arr(v), off(v), rangeindex + 1)
+//@     invariant[axes-non-empty] forall i int :: 0 <= i && i <= rangeindex ==> len(v[i]) >= 2
+//@     invariant[prefix-products] forall i int :: {axesProd(arr(v), off(v), i)} 0 <= i && i <= rangeindex + 1 ==> 1 <= axesProd(arr(v), off(v), i) && axesProd(arr(v), off(v), i) <= maxNumVariantsForSingleURL
+
+// indexInPossibleKeys: -1, or the row-major index of the key, which lies
+// below the number of possible keys.
+//@ func (Variants).indexInPossibleKeys
+//@   props C03 C10
+//@   requires forall i int :: 0 <= i && i < len(v) ==> len(v[i]) >= 2
+//@   requires forall i int :: {axesProd(arr(v), off(v), i)} 0 <= i && i <= len(v) ==> 1 <= axesProd(arr(v), off(v), i) && axesProd(arr(v), off(v), i) <= maxNumVariantsForSingleURL
+//@   ensures[in-range] result == -1 || (0 <= result && result < axesProd(arr(v), off(v), len(v)))
+//@   assigns nothing
+//@   loop 0:
+//@     invariant 0 <= index && index < axesProd(arr(v), off(v), rangeindex + 1) && len(v) == len(variantKey)
+//@   loop 1:
+//@     invariant 0 <= index && index < axesProd(arr(v), off(v), i) && len(v) == len(variantKey) && 0 <= i && i < len(v)
+
+//@ func (Variants).possibleKeyAt
+//@   props C03 C10
+//@   requires index >= 0 && (forall i int :: 0 <= i && i < len(v) ==> len(v[i]) >= 2)
+//@   assigns nothing
+//@   loop 0:
+//@     invariant -1 <= i && i < len(v) && len(keys) == len(v) && fresh(keys) && index >= 0
+
+// entriesInPossibleKeyOrder: the result has one slot per possible key, every
+// slot is filled, and only with entries of the input (incomplete or
+// overlapping coverage is refused).
+//@ func entriesInPossibleKeyOrder
+//@   props C03 C10
+//@   may_panic
+//@   returns (res, err)
+//@   requires len(es) >= 1 && (forall i int :: 0 <= i && i < len(es) ==> es[i] != nil)
+//@   ensures[every-slot-filled] err == nil ==> len(res) >= 1 && (forall i int :: 0 <= i && i < len(res) ==> res[i] != nil)
+//@   assigns nothing
+//@   loop 0:
+//@     invariant len(result) == numPossibleKeys && fresh(result) && numPossibleKeys == axesProd(arr(variants), off(variants), len(variants))
+//@     invariant forall i int :: 0 <= i && i < len(variants) ==> len(variants[i]) >= 2
+//@     invariant forall i int :: {axesProd(arr(variants), off(variants), i)} 0 <= i && i <= len(variants) ==> 1 <= axesProd(arr(variants), off(variants), i) && axesProd(arr(variants), off(variants), i) <= maxNumVariantsForSingleURL
+//@   loop 1:
+//@     invariant len(result) == numPossibleKeys && fresh(result) && numPossibleKeys == axesProd(arr(variants), off(variants), len(variants))
+//@     invariant forall i int :: 0 <= i && i < len(variants) ==> len(variants[i]) >= 2
+//@     invariant forall i int :: {axesProd(arr(variants), off(variants), i)} 0 <= i && i <= len(variants) ==> 1 <= axesProd(arr(variants), off(variants), i) && axesProd(arr(variants), off(variants), i) <= maxNumVariantsForSingleURL
+//@   loop 2:
+//@     invariant forall i int :: 0 <= i && i <= rangeindex ==> result[i] != nil
 
 // decodeCborHeaders: on success every field of the encoded map is returned:
 // as many entries as the map head declares (so no field silently replaced an
@@ -270,11 +330,41 @@ package bundle
 // Staging of sections happens in private buffers: these functions touch
 // nothing the destination writer can observe. (Frames assumed until the
 // map encoder's contract is discharged; see DESIGN.md.)
+// addResponse appends one encoded response to the staging buffer and reports
+// where: the offset is the buffer's length before, the length is what was
+// added, so consecutive responses tile the section.
+//@ func (*responsesSection).addResponse
+//@   props C03 C04
+//@   may_panic
+//@   returns (offset, length, err)
+//@   requires rs != nil && spos(rs.buf) == 0 && !failed(rs.buf)
+//@   ensures[location] err == nil ==> offset == old(send(rs.buf)) && length == send(rs.buf) - old(send(rs.buf)) && length >= 3
+//@   ensures spos(rs.buf) == 0 && send(rs.buf) >= old(send(rs.buf)) && !failed(rs.buf)
+//@   assigns accepted(rs.buf), failed(rs.buf), content(rs.buf), wrapped(rs.buf), sdata(rs.buf)
+
+// indexSection.addExchange records exactly the location it is given.
+//@ func (*indexSection).addExchange
+//@   props C03 C04
+//@   may_panic
+//@   requires is != nil && e != nil
+//@   ensures[entry-recorded] result == nil ==> len(is.es) == old(len(is.es)) + 1 && is.es[old(len(is.es))] != nil && is.es[old(len(is.es))].Offset == uint64(offset) && is.es[old(len(is.es))].Length == uint64(length) && is.es[old(len(is.es))].Request.URL == e.Request.URL
+//@   ensures[earlier-entries-kept] result == nil ==> forall k int :: 0 <= k && k < old(len(is.es)) ==> is.es[k] == old(is.es[k])
+//@   ensures[storage] result == nil ==> (fresh(is.es) || (base(is.es) == old(base(is.es)) && old(cap(is.es)) > 0))
+//@   ensures result == nil
+//@   assigns is.es, elems(is.es) if cap(is.es) > len(is.es)
+
+// addExchange: the index entry added for an exchange points at exactly the
+// bytes its response was given in the responses section.
 //@ func addExchange
 //@   props C03 C04
-//@   trusted
-//@   requires is != nil && rs != nil && e != nil
-//@   assigns is.es, *rs
+//@   may_panic
+//@   requires is != nil && rs != nil && e != nil && spos(rs.buf) == 0 && !failed(rs.buf)
+//@   ensures[entry-points-at-response] result == nil ==> len(is.es) == old(len(is.es)) + 1 && is.es[old(len(is.es))] != nil && is.es[old(len(is.es))].Offset == uint64(old(send(rs.buf))) && is.es[old(len(is.es))].Length == uint64(send(rs.buf) - old(send(rs.buf)))
+//@   ensures[earlier-entries-kept] result == nil ==> forall k int :: 0 <= k && k < old(len(is.es)) ==> is.es[k] == old(is.es[k])
+//@   ensures spos(rs.buf) == 0 && send(rs.buf) >= old(send(rs.buf)) && !failed(rs.buf)
+//@   ensures[storage] result == nil ==> (fresh(is.es) || (base(is.es) == old(base(is.es)) && old(cap(is.es)) > 0))
+//@   ensures result != nil ==> is.es == old(is.es)
+//@   assigns is.es, elems(is.es) if cap(is.es) > len(is.es), accepted(rs.buf), failed(rs.buf), content(rs.buf), wrapped(rs.buf), sdata(rs.buf)
 //@ func (*indexSection).Finalize
 //@   props C03 C04
 //@   trusted
@@ -282,8 +372,8 @@ package bundle
 //@   assigns is.bytes
 //@ func newResponsesSection
 //@   props C03 C04
-//@   trusted
-//@   ensures result != nil && fresh(result)
+//@   may_panic
+//@   ensures result != nil && fresh(result) && spos(result.buf) == 0 && !failed(result.buf) && send(result.buf) >= 1
 //@   assigns nothing
 //@ func newPrimarySection
 //@   props C03 C04
@@ -316,6 +406,29 @@ package bundle
 //@   ensures[write-failure-surfaces] failed(w) ==> err != nil
 //@   ensures[count-is-accepted] n == accepted(w) - old(accepted(w))
 //@   assigns accepted(w), failed(w), content(w), wrapped(w)
+//@   loop 0:
+//@     invariant is != nil && fresh(is) && rs != nil && fresh(rs) && spos(rs.buf) == 0 && !failed(rs.buf) && (fresh(is.es) || cap(is.es) == 0)
 //@   loop 1:
 //@     invariant !failed(cw) && cw.w == w && accepted(cw) - wrapped(cw) == 0 - old(accepted(w))
 //@     invariant forall i int :: 0 <= i && i < len(sections) ==> sections[i] != nil
+
+// Response.EncodeHeader: the ":status" pseudo field and one entry per header
+// field go through the sorted, duplicate-refusing map encoder into a private
+// buffer; nothing visible is written.
+//@ func (Response).EncodeHeader
+//@   props C04 C06 C18
+//@   may_panic
+//@   returns (bs, err)
+//@   assigns nothing
+//@   loop 0:
+//@     invariant entriesFresh(mes) && entriesDistinct(mes) && len(mes) >= 1
+//@     invariant fresh(mes) && (forall k int :: 0 <= k && k < len(mes) ==> fresh(mes[k]))
+//@     invariant enc != nil && fresh(enc) && enc.w != nil && !failed(enc.w) && fresh(enc.w) && typeis(enc.w, *bytes.Buffer)
+//@     invariant[no-alias] forall k int :: 0 <= k && k < len(mes) ==> mes[k] != nil && ref(enc.w) != ref(mes[k].keyBuf) && ref(enc.w) != ref(mes[k].valueBuf) && ref(under(enc.w)) != ref(mes[k].keyBuf) && ref(under(enc.w)) != ref(mes[k].valueBuf)
+
+//@ func (Response).HeaderSha256
+//@   props C06 C18
+//@   may_panic
+//@   returns (h, err)
+//@   ensures err == nil ==> len(h) == 32 && fresh(h)
+//@   assigns nothing
